@@ -55,11 +55,38 @@ KF_frame(step) ==
      \A c \in changed : InheritedNsOnly(step, c) /\ UnifiesDup(step, c)
   THEN "KF-unified-registers" ELSE ""
 
+(* KF-C03-shadow seen through a textual round trip: a bundle re-binds a prefix (or  *)
+(* the default namespace) of its document, and a record of that bundle uses a name  *)
+(* it inherited under the document's binding; the printed name is then read back    *)
+(* under the bundle's binding.  Only such bundles may differ, and every record that *)
+(* does not come back must mention a URI in a shadowed namespace of the document.   *)
+ShadowedNs(doc, b) ==
+  {e2[2] : e2 \in {x \in SeqToSet(doc.ns.reg) : \E e1 \in SeqToSet(b.ns.reg) : e1[1] = x[1] /\ e1[2] # x[2]}}
+  \cup (IF b.ns.dflt # NONE /\ doc.ns.dflt # NONE /\ b.ns.dflt # doc.ns.dflt THEN {doc.ns.dflt} ELSE {})
+UrisOfRec(r) == (IF r.id = NONE THEN {} ELSE {r.id}) \cup {x.a : x \in SeqToSet(r.attrs)}
+                \cup {x.v.u : x \in {y \in SeqToSet(r.attrs) : y.v.t = "qn"}}
+                \cup {x.v.dt : x \in {y \in SeqToSet(r.attrs) : y.v.t = "lit"}}
+ShadowExplains(src, other) ==
+  /\ SameBag(ContentSeq(src.recs), other.recs)
+  /\ {src.bundles[i].id : i \in 1..Len(src.bundles)} = {other.bundles[i].id : i \in 1..Len(other.bundles)}
+  /\ Len(src.bundles) = Len(other.bundles)
+  /\ \A i \in 1..Len(src.bundles) : \A j \in 1..Len(other.bundles) :
+        src.bundles[i].id = other.bundles[j].id =>
+          LET sb == src.bundles[i]
+              lost == {n \in 1..Len(sb.recs) : CountIn(ContentSeq(sb.recs), Content(sb.recs[n]))
+                                                > CountIn(other.bundles[j].recs, Content(sb.recs[n]))}
+          IN \A n \in lost : \E u \in UrisOfRec(sb.recs[n]) : \E sn \in ShadowedNs(src, sb) : IsPrefix(sn, u)
+AsRead(d) == [recs |-> ContentSeq(d.recs),
+              bundles |-> [i \in 1..Len(d.bundles) |-> [id |-> d.bundles[i].id, recs |-> ContentSeq(d.bundles[i].recs)]]]
+KF_rt(step) == IF step.exc = "none" /\ ShadowExplains(step.src, AsRead(step.back)) THEN "KF-C03-shadow" ELSE ""
+
 KnownFinding(step, c) ==
   CASE c = "C03c" -> KF_C03c(step)
     [] c = "C05_refuse" -> KF_C05_refuse(step)
     [] c = "C08_pure"   -> KF_pure(step)
     [] c = "C12_frame"  -> KF_frame(step)
+    [] c = "C01_rt"     -> KF_rt(step)
+    [] c = "C10_read_json" -> IF ShadowExplains(step.src, SpecReadJSON(step.ast)) THEN "KF-C03-shadow" ELSE ""
     [] OTHER -> ""
 
 =============================================================================
